@@ -118,7 +118,7 @@ def shapes(thorough):
     return sh
 
 
-def check_fn(ex, shape, thorough):
+def check_fn(ex, shape, thorough, evict=True):
     from pytableaux.lang import Constant, Quantified, Variable
     lexsym.reset_cache()
     b = Builder(ex, symbolic_index=shape in ('Fp', 'Rpp', 'QvFp'))
@@ -149,9 +149,10 @@ def check_fn(ex, shape, thorough):
                     raise Bad('a published parameter set holds two equal members')
     # --- substitution
     sym_i = b.symbolic_index
-    # cache history: the parameters are built with the item cache as the sentence left it, or
-    # after its eviction (equal items are then distinct objects)
-    if ex.pick(2, 'evicted'):
+    # cache history: the parameters are built after the eviction of the item cache (equal items
+    # are then distinct objects -- what a symbolic run gives anyway, made explicit so that concrete
+    # replays agree); the warm-cache case (shared objects) is validated concretely per path
+    if evict:
         lexsym.reset_cache()
     pnew = (Constant, Variable)[ex.pick(2, 'newkind')](ex.int('new_i') if sym_i else 0, ex.int('new_s'))
     pold = (Constant, Variable)[ex.pick(2, 'oldkind')](ex.int('old_i') if sym_i else 0, ex.int('old_s'))
@@ -204,13 +205,27 @@ def unit(arg):
         if p.kind != 'ok':
             bad.append(dict(shape=shape, error=f'{type(p.value).__name__}: {p.value}',
                             picks=list(p.picks), witness=model_values(ex.witness(p)),
-                            thorough=thorough))
+                            thorough=thorough, evict=True))
+    # concrete validation with a warm cache (equal items are one shared object)
+    lexsym.remove_hash_abstraction()
+    validated = 0
+    step = max(1, len(paths) // 40)
+    for p in paths[::step]:
+        if p.kind != 'ok':
+            continue
+        wit = model_values(ex.witness(p))
+        try:
+            check_fn(ReplayDriver(list(p.picks), wit), shape, thorough, evict=False)
+            validated += 1
+        except Exception as e:  # noqa: BLE001
+            bad.append(dict(shape=shape, error=f'warm cache: {type(e).__name__}: {e}', picks=list(p.picks),
+                            witness=wit, thorough=thorough, evict=False))
     samples = []
     if paths:
         p = paths[len(paths) // 2]
         samples.append(dict(shape=shape, path_condition=[str(c) for c in p.pc[:10]],
                             witness=model_values(ex.witness(p)), outcome=p.kind))
-    return dict(shape=shape, stats=ex.stats(), bad=bad[:5], nbad=len(bad),
+    return dict(shape=shape, stats=ex.stats(), bad=bad[:5], nbad=len(bad), validated=validated,
                 ok=sum(1 for p in paths if p.kind == 'ok'), samples=samples)
 
 
@@ -244,9 +259,10 @@ def run(ctx):
             seen.add(key)
             rep.violation(key, f'shape {b["shape"]}: {b["error"]} with {b["witness"]}',
                           dict(shape=b['shape'], picks=b['picks'], witness=b['witness'],
-                               thorough=b['thorough'], error=b['error']))
+                               thorough=b['thorough'], error=b['error'], evict=b.get('evict', True)))
     rep.coverage = dict(
-        states=paths, transitions=trans, traces_validated_against_impl=0, samples=samples[:6],
+        states=paths, transitions=trans, traces_validated_against_impl=sum(r.get('validated', 0) for r in results),
+        samples=samples[:6],
         bounds=dict(shapes=names, depth=3 if thorough else 2,
                     parameters='every position constant-or-variable (symbolic pick) with symbolic '
                                'subscript >= 0 (index symbolic too for the shapes Fp, Rpp, QvFp); pnew, '
@@ -266,7 +282,7 @@ def run(ctx):
 def replay(data):
     drv = ReplayDriver(data['picks'], data['witness'])
     try:
-        check_fn(drv, data['shape'], data.get('thorough', False))
+        check_fn(drv, data['shape'], data.get('thorough', False), evict=data.get('evict', True))
     except Bad as e:
         return True, f'shape {data["shape"]} with {data["witness"]}: {e}'
     except Exception as e:  # noqa: BLE001
